@@ -673,6 +673,42 @@ func init() {
 			}
 			def("cacheKeys", keys)
 		}
+		// round 12: pending-output bookkeeping of a multi-output compaction (kv/compact_job.go)
+		{
+			var sites []string
+			for _, d := range cj.Decls {
+				fd, ok := d.(*ast.FuncDecl)
+				if !ok || fd.Body == nil {
+					continue
+				}
+				for _, e := range c02Events(fd, c02Keep("family.removePendingOutput")) {
+					if e == "family.removePendingOutput" {
+						sites = append(sites, fd.Name.Name)
+					}
+				}
+			}
+			fmt.Fprintf(&sb, "\n/-- the functions of kv/compact_job.go that call family.removePendingOutput, one entry per call site -/\n")
+			def("compactPendingReleaseSites", sites)
+			fd, err := need(cj, "compactJob", "finishCompactionOutputFile")
+			if err != nil {
+				return "", err
+			}
+			fin := c02Events(fd, c02Keep("family.removePendingOutput", "builder.Count", "builder.Close", "builder.Abandon", "state.addOutputFile"))
+			def("finishOutputCalls", fin)
+			rel := false
+			for _, e := range fin {
+				if e == "family.removePendingOutput" {
+					rel = true
+				}
+			}
+			fmt.Fprintf(&sb, "/-- does finishCompactionOutputFile itself release the pending-output mark of the table it finished? -/\n")
+			fmt.Fprintf(&sb, "def finishOutputReleasesPending : Bool := %v\n", rel)
+			fd, err = need(cj, "compactJob", "openCompactionOutputFile")
+			if err != nil {
+				return "", err
+			}
+			def("openOutputCalls", c02Events(fd, nil))
+		}
 		fmt.Fprintf(&sb, "\n/-- does `removeVersion` re-check `ref == 0` under the family lock before deleting? -/\n")
 		fmt.Fprintf(&sb, "def removeVersionRechecksRef : Bool := %v\n", c02RemoveRechecks(removeSteps))
 		return sb.String(), nil
